@@ -16,18 +16,30 @@ from .. import core, build_repo
 from . import c18
 
 ID = "C19"
-LEVEL = "proof"
+LEVEL = "other"
 RULE = ("cases = runs of option histories over one build directory and a fixed tree whose findings depend on each option of the "
         "property's list (severities, checks, --inconclusive, -D, -U, -I, --std, --language, --platform, --library, suppressions, "
         "--max-configs, --check-level, --force); non-trivial = the run follows a run with another option set")
-EXPLANATION = ("Lean: C18's transparency theorem covers histories whose edits change options (the options are part of the analysis input the "
-               "key must determine); over the tables translated from cmdlineparser.cpp / settings.cpp and the translated toolinfo chain, every "
-               "option of the list writes only fields that are hashed, derived from a hashed field, re-applied after the cache or visible in the "
-               "token stream - except the listed uncovered options, each demonstrated on the real binary (known findings) and proved stale in the "
-               "model. That a covered field is rendered unambiguously into toolinfo is validated by CLI option histories, not proved.")
+EXPLANATION = ("PARTIAL. Proved (Lean): C18's transparency theorem for histories whose edits change options, with the hypothesis hopt = 'equal "
+               "toolinfo implies equal option values' kept explicit; over the tables translated on every run from cmdlineparser.cpp / settings.cpp and "
+               "from the toolinfo chain, every analysis option of the property's list except --language= writes only fields that are hashed, derived "
+               "from a hashed field, re-applied after the cache or visible in the token stream (options_covered_partial; --language= is a replayed known "
+               "finding); a change confined to one block of the chain changes toolinfo (covered_block_determined). NOT proved: that the chain as a whole "
+               "is uniquely decodable - it is not for arbitrary settings (toolinfo_rendering_ambiguous: maxConfigs 11/level 0 vs maxConfigs 1/level 1/addon "
+               "'0'), so hopt does not follow from the table; the five hand-classified roles of unhashed fields are asserted from reading the code. Both "
+               "gaps are covered only dynamically: in-process key correspondence, CLI option histories (every reuse of a cached file must be explained by "
+               "an option the tables call uncovered or role-excused; named A-B-A obligations per role-excused option).")
+ASSUMPTIONS = c18.ASSUMPTIONS + [
+    "hopt: on the inputs of a history equal toolinfo implies equal values of the analysis options (not derived from the coverage table: the chain has "
+    "no separators between userDefines, the two flag characters, maxConfigsOption, checkLevel, addon name/args, premiumArgs)",
+    "FieldRole classifications (suppressions re-applied after the cache, includePaths through tokens, inlineSuppressions via suppressions, vfOptions "
+    "via checkLevel, unusedFunction switch-off consumer-gated) are read off the code, each backed by a named A-B-A CLI obligation only",
+    "--library / --platform name files whose contents are not part of the key (names only)",
+]
 THEOREMS = ["Cppcheck.Cache." + t for t in (
     "option_history_transparent_partial", "option_history_transparent_generic", "options_covered_partial", "options_covered_counterexample",
-    "options_covered_legacy_counterexample", "uncovered_option_counterexample", "option_table_nonempty")]
+    "options_covered_legacy_counterexample", "uncovered_option_counterexample", "option_table_nonempty",
+    "covered_block_determined", "toolinfo_rendering_ambiguous")]
 MODULES = ["Cppcheck.Props.C19"]
 
 Unrecognised = c18.Unrecognised
@@ -293,6 +305,8 @@ DIMS = {
 # which option of the tables explains a stale hit when the two runs differ in a dimension
 KEYPFX = "option-not-in-key:"
 KEY_CHECKERS = "checkers-report-unusedfunction-jobs"
+# options whose written fields are not hashed themselves but excused by a FieldRole (Model/Cache.lean fieldRole): reuse across a change is legitimate
+ROLE_EXCUSED = {"-I", "--inline-suppr", "--disable=unusedFunction"}
 
 
 def enabled_sets(vals):
@@ -319,8 +333,15 @@ def enabled_sets(vals):
 def explain(optsA, optsB):
     """option names (as in Gen.OptionUse) by which two option sets differ"""
     names = set()
+    def eff(o, d):
+        v = o.get(d, [])
+        if d == "--check-level=":
+            return v or ["--check-level=normal"]            # the command line parser starts with setCheckLevel(normal)
+        if d == "--max-configs=":
+            return [] if o.get("--force") else v            # --force (handled after --max-configs in our command lines) resets maxConfigsOption
+        return v
     for d in DIMS:
-        a, b = optsA.get(d, []), optsB.get(d, [])
+        a, b = eff(optsA, d), eff(optsB, d)
         if a == b:
             continue
         if d != "--enable=":
@@ -371,6 +392,16 @@ def judge_options(ctx, res, tag, optsets, jobs, runs, uncovered):
         canon = "%s run %d %s" % (tag, k, " ".join(flat(optsets[k])))
         res.case("opt|" + " ".join(flat(o) and " ".join(flat(o)) or "-" for o in optsets[:k + 1]), k > 0,
                  dict(tie="cli-option-history", op=canon, impl="%d findings rc=%d" % (len(r["cached"]), r["rc_c"]), model="fresh: %d findings rc=%d" % (len(r["fresh"]), r["rc_f"])))
+        # the key must change whenever a hashed option changes: a file may be served from the cache only if the options of the run that
+        # analysed it differ from the current ones in nothing, or only in options the tables call uncovered / excuse by a role
+        for f in hits:
+            chg = explain(optsets[last.get(f, 0)], optsets[k])
+            bad = sorted(n for n in chg if n not in uncovered and n not in ROLE_EXCUSED)
+            res.count("reuse:options-equal" if not chg else "reuse:options-differ")
+            if bad:
+                res.violation("run %d of option history %s: %s is served from the cache although the hashed option(s) %s changed since it was analysed (run %d: %s; now: %s)" % (
+                                  k, tag, f, bad, last.get(f, 0), " ".join(flat(optsets[last.get(f, 0)])) or "-", " ".join(flat(optsets[k])) or "-"),
+                              dict(optsets=optsets[:k + 1], jobs=(jobs[:k + 1] if isinstance(jobs, list) else jobs), file=f, changed=bad), concrete=True, key=None)
         if r["cached"] == r["fresh"] and r["rc_c"] == r["rc_f"]:
             res.traces_validated += 1
             continue
@@ -425,10 +456,13 @@ def gen_option_history(rng, n):
     out = [dict(cur)]
     for _ in range(n - 1):
         r = rng.random()
-        if r < 0.3:
+        if r < 0.25:
             pass                                    # same options again: everything is served from the cache
-        elif r < 0.4 and len(out) >= 2:
-            cur = dict(out[-2])                     # back to the options before the last change
+        elif r < 0.45 and len(out) >= 2:
+            cur = dict(out[-2])                     # back to the options before the last change (A -> B -> A)
+        elif r < 0.6:
+            d = rng.choice(["-I", "--inline-suppr", "--language="])      # role-excused / uncovered: files are reused across the change
+            cur[d] = rng.choice([v for v in DIMS[d] if v != cur[d]])
         else:
             for d in rng.sample(list(DIMS), rng.choice([1, 1, 1, 2])):
                 cur[d] = rng.choice([v for v in DIMS[d] if v != cur[d]])
@@ -486,6 +520,12 @@ def cli_option_histories(ctx, res, table, used, items, n, nruns):
             res.extra.setdefault("witnesses", {})[c["name"]] = "reproduces" if c["key"] in seen else "does not reproduce"
             if c["key"] in seen and c["key"].startswith(KEYPFX):
                 demonstrated.add(c["key"][len(KEYPFX):])
+    # named obligations: every role-excused option has an A-B-A history whose cached runs equal the fresh runs
+    for (tag, optsets, jobs, c), runs in zip(todo, allruns):
+        if c and c.get("role"):
+            okr = all(r["cached"] == r["fresh"] and r["rc_c"] == r["rc_f"] for r in runs)
+            res.oblig("role-excused:%s (%s)" % (c["role"], c["name"]), okr, "correspondence",
+                      "" if okr else "a cached run of the A-B-A history differs from the fresh run: the role that excuses this option no longer holds")
     missing = sorted(uncovered - demonstrated)
     res.oblig("every-uncovered-option-has-a-failing-input", not missing, "correspondence",
               "" if not missing else "the tables say these options do not reach the key, but no witness of corpus/C19 reproduces on the real binary: %s" % missing)
@@ -528,3 +568,4 @@ def run(ctx, res):
         cli_option_histories(ctx, res, ex[0], ex[1], ex18[0], 40 if thorough else 8, 6 if thorough else 5)
     T["cli"] = round(time.time() - t, 1)
     res.extra["timings_s"] = T
+    res.assumptions = list(ASSUMPTIONS)
